@@ -524,6 +524,27 @@ theorem parse_rejects_examples :
       some ⟨"f", [⟨"a", .po, false⟩, ⟨"b", .pk, true⟩, ⟨"args", .va, false⟩, ⟨"c", .ko, false⟩, ⟨"kw", .vk, false⟩]⟩ := by
   decide
 
+/-! ### `get_type_info`: the nesting combinators are rendered by the model -/
+
+/-- whatever the leaves render to (well-formed annotations), `AnyOf/OneOf/AllOf[X, None]` → `Optional[..]`, other
+    unions → `Union[..]`, `Map[K, V]` → `dict[.., ..]`, nested to any depth, is a well-formed annotation: it contains
+    no default and is accepted by the expression recogniser (the fixed finding "unparsable-stub:nested-optional-default"
+    cannot recur in the model) -/
+theorem type_info_wf (t : FTy) (h : FTy.wf t = true) :
+    (typeInfo t).wf = true ∧ exprOk (annToks (typeInfo t)) = true ∧ (∀ u ∈ annToks (typeInfo t), u ≠ Tok.eq) := by
+  have hw := c16_typeInfo_wf t h
+  refine ⟨hw, c16_exprOk_ann _ hw, ?_⟩
+  intro u hu e
+  have := c16_annTok_ann _ u hu
+  rw [e] at this
+  simp [annTok] at this
+
+/-- `m: Map[String, AnyOf[Integer, None]]` (the input of the fixed finding): `dict[str, Optional[int]]` -/
+theorem type_info_example :
+    toksText (annToks (typeInfo (.map [.leaf (.name ["str"]), .opt (.leaf (.name ["int"]))]))) =
+      "dict [ str , Optional [ int ] ]" := by
+  decide
+
 /-! ### the character level -/
 
 /-- printing any token sequence whose names are identifier-shaped (one blank after each token) and lexing the
